@@ -172,6 +172,10 @@ func V6Prefix(k string) string {
 	if n&1 == 1 {
 		return fmt.Sprintf("2001:db8:%x::1/48", n) // host bits set
 	}
+	if n%4 == 2 {
+		// legal but not the canonical spelling (upper-case digits, an explicit zero group): kept verbatim as the key
+		return fmt.Sprintf("2001:DB8:%X:0::/48", n)
+	}
 	return fmt.Sprintf("2001:db8:%x::/48", n)
 }
 
@@ -200,6 +204,9 @@ func AbsTopKey(kind string, concrete any) string {
 		s := concrete.(string)
 		var n uint64
 		if c, _ := fmt.Sscanf(s, "2001:db8:%x::", &n); c == 1 && V6Prefix(fmt.Sprintf("k%d", n)) == s {
+			return fmt.Sprintf("k%d", n)
+		}
+		if c, _ := fmt.Sscanf(s, "2001:DB8:%X:0::", &n); c == 1 && V6Prefix(fmt.Sprintf("k%d", n)) == s {
 			return fmt.Sprintf("k%d", n)
 		}
 		return s
